@@ -11,6 +11,7 @@ import (
 	"net/http/httptest"
 	"regexp"
 	"sort"
+	"strconv"
 	"strings"
 	"sync"
 	"time"
@@ -150,6 +151,14 @@ type Resp struct {
 	Err    string
 }
 
+// Part is one reading step of a request that reads several windows (one Select of several on one Querier): its own
+// window, its own statements, its own result.
+type Part struct {
+	Win   Win
+	Resp  Resp
+	Stmts []StmtRec
+}
+
 func (x *Exec) http(cluster bool, method, url, ctype string, body []byte) Resp {
 	var rd io.Reader
 	if body != nil {
@@ -211,6 +220,15 @@ func itemsOf(c *Cell, which string) []Item {
 
 func famOf(which string) byte {
 	return map[string]byte{"samples": 'q', "traces": 't', "shared": 's', "profs": 'p'}[which]
+}
+
+// itemMust / itemAllowed: an item with a second, older sample (Extra) is owed / allowed through either sample.
+func itemMust(ep *Endpoint, w Win, it *Item) bool {
+	return ep.Must(w, it.Ts) || (it.Extra != 0 && ep.Must(w, it.Extra))
+}
+
+func itemAllowed(ep *Endpoint, w Win, it *Item) bool {
+	return ep.Allowed(w, it.Ts) || (it.Extra != 0 && ep.Allowed(w, it.Extra))
 }
 
 func typeOK(ep *Endpoint, it *Item) bool {
@@ -314,7 +332,7 @@ func judge(c *Cell, ep *Endpoint, cluster bool, resp Resp, stmts []StmtRec, reru
 	leaked := map[int]bool{}
 	var owed []*Item
 	for k := range items {
-		if typeOK(ep, &items[k]) && ep.Must(w, items[k].Ts) {
+		if typeOK(ep, &items[k]) && itemMust(ep, w, &items[k]) {
 			owed = append(owed, &items[k])
 		}
 	}
@@ -322,8 +340,8 @@ func judge(c *Cell, ep *Endpoint, cluster bool, resp Resp, stmts []StmtRec, reru
 	for k := range items {
 		it := &items[k]
 		tok := typeOK(ep, it)
-		must := tok && ep.Must(w, it.Ts)
-		allowed := tok && ep.Allowed(w, it.Ts)
+		must := tok && itemMust(ep, w, it)
+		allowed := tok && itemAllowed(ep, w, it)
 		if must {
 			o.MustN++
 		}
@@ -354,7 +372,7 @@ func judge(c *Cell, ep *Endpoint, cluster bool, resp Resp, stmts []StmtRec, reru
 		}
 		have := 0
 		for k := range items {
-			if got[items[k].Marker] && typeOK(ep, &items[k]) && ep.Allowed(w, items[k].Ts) {
+			if got[items[k].Marker] && typeOK(ep, &items[k]) && itemAllowed(ep, w, &items[k]) {
 				have++
 			}
 		}
@@ -381,6 +399,36 @@ func judge(c *Cell, ep *Endpoint, cluster bool, resp Resp, stmts []StmtRec, reru
 			if expl != "" {
 				add(expl, what)
 			}
+		}
+	}
+	// O' for index tables, statement by statement (a request may send several reading statements with DIFFERENT
+	// windows: PromQL selectors with offsets, several Selects on one Querier, tail re-polls): the date range a
+	// statement puts on an index table has to cover the timestamp window the same statement — or, for a label fetch
+	// by fingerprint list, the data statement right before it — reads.
+	for si, s := range stmts {
+		lo, hasLo, hi, hasHi := dateBounds(s.SQL)
+		if !hasLo && !hasHi {
+			continue
+		}
+		tw, ok := tsWindow(s.SQL)
+		kind := "index_date_range_does_not_cover_the_data_window_of_its_statement"
+		if !ok && si > 0 && labelFetchRe.MatchString(s.SQL) {
+			tw, ok = tsWindow(stmts[si-1].SQL)
+			kind = "label_fetch_date_range_does_not_cover_the_window_of_its_select"
+		}
+		if !ok {
+			continue
+		}
+		if (hasLo && lo > utcDay(tw[0])) || (hasHi && hi < utcDay(tw[1])) {
+			bl, bh := "-inf", "+inf"
+			if hasLo {
+				bl = dayStr(lo)
+			}
+			if hasHi {
+				bh = dayStr(hi)
+			}
+			add(kind, fmt.Sprintf("statement #%d bounds its index table to dates %s..%s while the data it belongs to is read for %s..%s: %s",
+				si+1, bl, bh, tsStr(tw[0]), tsStr(tw[1]), short(s.SQL)))
 		}
 	}
 	// O': data-table scans admit only rows the endpoint may read
@@ -412,6 +460,38 @@ func judge(c *Cell, ep *Endpoint, cluster bool, resp Resp, stmts []StmtRec, reru
 		}
 	}
 	return o
+}
+
+var tsBoundRe = regexp.MustCompile(`timestamp_ns\)\s*(>=|<=|>|<)\s*\((\d+)\)`)
+var labelFetchRe = regexp.MustCompile(`FROM\s+\S*time_series\S*\s+WHERE\s+\(fingerprint IN \(\d`)
+
+// tsWindow extracts the (narrowest) closed timestamp window [first, last] a statement puts on its data table.
+func tsWindow(sql string) ([2]int64, bool) {
+	var lo, hi int64
+	var hasLo, hasHi bool
+	for _, m := range tsBoundRe.FindAllStringSubmatch(sql, -1) {
+		v, err := strconv.ParseInt(m[2], 10, 64)
+		if err != nil {
+			continue
+		}
+		switch m[1] {
+		case ">":
+			v++
+		case "<":
+			v--
+		}
+		if m[1][0] == '>' {
+			if !hasLo || v > lo {
+				lo, hasLo = v, true
+			}
+		} else if !hasHi || v < hi {
+			hi, hasHi = v, true
+		}
+	}
+	if !hasLo || !hasHi || hi < lo {
+		return [2]int64{}, false
+	}
+	return [2]int64{lo, hi}, true
 }
 
 var anyTsBoundRe = regexp.MustCompile(`timestamp_ns\)?\s*(>=|<=|>|<)|start_time_unix_nano\)?\s*(>=|<=|>|<)`)
